@@ -304,3 +304,20 @@ PROPS["C17"] = {
     "quick": [rapid("select", "^TestPropSelect$", 1500, shards=4)],
     "thorough": [rapid("select", "^TestPropSelect$", 25000, shards=12)],
 }
+
+PROPS["C13"] = {
+    "pkg": "c13",
+    "level": "exploration",
+    "replay_race": True,
+    "rule": (WORLD_RULE + "(a) ALL permutations of the Add script (<=4 calls, <=24 orders) and (b) reversed / rotated dependency report order "
+             "inside the finders: every run must give identical manifest bytes, ChecksumV1, top-level directory names, relative file paths "
+             "and contents, forward lookups relative to the root and SourceForLocalPath answers (each asked 6 times on one bundle object); (c) "
+             "packages with identical path->content maps share one directory, any difference => different directories (clone and "
+             "one-file-different clone pairs, incl. equally long alias addresses); (d) in a -race binary one goroutine per Add call on one "
+             "builder with a drawn yield pattern in the harness callbacks: same fingerprint as the sequential build, each package fetched "
+             "once, a race report with a go-slug frame is a violation. Non-trivial = >=2 Add calls, a coalescing pair, or a concurrent round; "
+             "distinct by case hash."),
+    "assumptions": ["schedules are sampled (the builder holds one mutex while draining its queues)", "modes and empty directories are outside 'same file paths and contents'"],
+    "quick": [rapid("order", "^TestPropOrder$", 90, shards=5), rapid("concurrent", "^TestPropConcurrent$", 40, shards=4, race=True)],
+    "thorough": [rapid("order", "^TestPropOrder$", 1500, shards=8), rapid("concurrent", "^TestPropConcurrent$", 400, shards=8, race=True)],
+}
